@@ -52,7 +52,19 @@ def make(tid, items, refs, short=False):
         # expected distance for the short-branch rejection rule (independent arithmetic)
         if r.out.kind == "diag":
             if not short:
-                bad = True                       # nothing in these templates may be rejected
+                bad = True                       # nothing in these templates may be rejected ...
+                if len(refs) == 1 and refs[0][2]:
+                    # ... except a label+constant whose value lies outside 0..65535 (C04: reduced modulo 65536 OR rejected)
+                    # (label addresses are not available for a rejected program: independent bounds from o, n and the
+                    # possible sizes of the source statement; acceptance is demanded only when the target is surely in range)
+                    i0, _lab0, kname0, sign0 = refs[0]
+                    kk = sign0 * r.vals[kname0]
+                    ol = S.opcode_len(r.meta[i0]["m"])
+                    if "fwd" in tid:
+                        lo, hi = r.vals["o"] + ol + 2 + r.vals["n"] + kk, r.vals["o"] + ol + 3 + r.vals["n"] + kk
+                    else:
+                        lo = hi = r.vals["o"] + kk
+                    bad = (0 <= lo) and (hi <= 65535)
             else:
                 bad = None
             if short:
@@ -161,6 +173,13 @@ def obligations(tier, seed):
         "idx-between": ([("org", "H4"), ("lit", "w", "D3"), ("ins", "P1", "LDA", "T,PCR"), ("ins", "", "LDB", "{w},X"),
                          ("gap", "n", G), ("ins", "T", "NOP", "")], [(1, "T", None, 1)]),
     }
+    fillers = [("FDB", "$1234"), ("FCB", "$12"), ("FDB", "1,2,3"), ("FCC", '"ABC"'), ("LDA", "5,X"), ("LDX", "300,Y"), ("LDA", "-20,U"), ("SWI", ""),
+               ("LDY", "#$1234"), ("PSHS", "A,B"), ("JMP", "[$1234]"), ("LDA", "[$10]"), ("LDB", ",X+"), ("CLR", "<$20"), ("LBRA", "T")]
+    for fi, (fm, fo) in enumerate(fillers):
+        multi["fill-bwd%d" % fi] = ([("org", "H4"), ("ins", "T", fm if fm != "LBRA" else "NOP", fo if fm != "LBRA" else ""), ("ins", "", fm, fo), ("gap", "n", 300),
+                                     ("ins", "SRC", "LEAX", "T,PCR")], [(4, "T", None, 1)])
+        multi["fill-fwd%d" % fi] = ([("org", "H4"), ("ins", "SRC", "LDA", "T,PCR"), ("ins", "", fm if fm != "LBRA" else "NOP", fo if fm != "LBRA" else ""), ("ins", "", fm if fm != "LBRA" else "NOP", fo if fm != "LBRA" else ""),
+                                     ("gap", "n", 300), ("ins", "T", "NOP", "")], [(1, "T", None, 1)])
     for kchain in ([3, 5] if not full else [3, 4, 5, 8]):
         items = [("org", "H4"), ("ins", "P0", "LDA", "NEAR,PCR")]
         for j in range(kchain):
